@@ -8,7 +8,14 @@
 //! order; unknown ids, corrupted `checkpoint.json`, removed stored copies) run in a child process per
 //! configuration (`rv c13-child`; cwd = root / outer / sibling with same-named files / sub-directory / "/").
 //!
+//! File size and inode identity: the initial workspace and the contents written by the `write` tool / external edits mix
+//! the tiny files with line-structured files of 4 KiB, 64 KiB-1, 64 KiB, 64 KiB+1, 200 KiB and 1 MiB; between a checkpoint
+//! and its rewind the covered files are edited in place (write append / atomic:false, apply_patch update and update+move,
+//! external truncate+rewrite, external append) and by replacement (atomic write, external rename-over).
+//!
 //! Oracle (on the real trees the child reports after every step):
+//!  * after every step no file below `.rip/checkpoints` has a hard link outside the store (st_dev + st_ino + st_nlink):
+//!    a stored copy that shares its inode with a workspace file is rewritten by the next in-place edit;
 //!  * creating a checkpoint does not change the workspace;
 //!  * successful rewind: every covered path matches its record, every other path is untouched;
 //!  * failed rewind: the whole tree (files) is identical to before;
@@ -101,6 +108,24 @@ struct History {
     plans: Vec<Plan>,
     driver: &'static str,
     shape: Vec<String>,
+    /// large files of the initial workspace: (rel path, generator seed, bytes)
+    initial_big: Vec<(String, u64, usize)>,
+}
+
+/// sizes around plausible copy / link / buffer thresholds
+const SIZES: &[usize] = &[4096, 65535, 65536, 65537, 200 * 1024, 1 << 20];
+const BIG_PATHS: &[&str] = &["big/f0.txt", "sub/big1.txt", "big file 2.txt"];
+
+fn size_tag(n: u64) -> &'static str {
+    match n {
+        0..=4095 => "lt_4k",
+        4096..=65534 => "4k_to_64k-2",
+        65535 => "64k-1",
+        65536 => "64k",
+        65537 => "64k+1",
+        65538..=1048575 => "gt_64k+1",
+        _ => "ge_1m",
+    }
 }
 
 const POOL: &[&str] = &[
@@ -204,42 +229,161 @@ impl<'a> Gen<'a> {
             "runner"
         }
     }
+    /// a size for generated content: `tool` contents stay <= 200 KiB (they travel inside an input envelope)
+    fn pick_size(&mut self, tool: bool) -> usize {
+        match self.rng.below(if tool { 14 } else { 15 }) {
+            0 | 1 => SIZES[0],
+            2..=4 => SIZES[1],
+            5..=8 => SIZES[2],
+            9..=11 => SIZES[3],
+            12 | 13 => SIZES[4],
+            _ => SIZES[5],
+        }
+    }
+    fn big_files(&self) -> Vec<String> {
+        self.m.files.iter().filter(|(_, b)| b.len() >= 4096).map(|(p, _)| p.clone()).collect()
+    }
+    /// an existing file, biased towards the large ones
+    fn pick_existing(&mut self) -> Option<String> {
+        let big = self.big_files();
+        if !big.is_empty() && self.rng.chance(1, 2) {
+            return Some(self.rng.pick(&big).clone());
+        }
+        let existing: Vec<String> = self.m.files.keys().cloned().collect();
+        if existing.is_empty() {
+            None
+        } else {
+            Some(self.rng.pick(&existing).clone())
+        }
+    }
     fn write(&mut self, to_dir: bool) -> usize {
-        self.token += 1;
         let rel = if to_dir {
             "sub".to_string()
         } else {
-            let existing: Vec<String> = self.m.files.keys().cloned().collect();
-            if !existing.is_empty() && self.rng.chance(2, 3) {
-                self.rng.pick(&existing).clone()
-            } else {
-                POOL[self.rng.usize(POOL.len())].to_string()
+            match self.pick_existing() {
+                Some(p) if self.rng.chance(2, 3) => p,
+                _ => POOL[self.rng.usize(POOL.len())].to_string(),
             }
         };
+        let mode = match self.rng.below(4) {
+            0 => "nonatomic",
+            1 => "append",
+            _ => "atomic",
+        };
+        let big = if !to_dir && self.rng.chance(1, 4) { Some(self.pick_size(true)) } else { None };
+        self.write_to(&rel, mode, big, to_dir)
+    }
+    /// `write` through the tool runner / router: mode = atomic (default: new file renamed over the old one) |
+    /// nonatomic (atomic:false, in place) | append (append:true, in place); `big` = generated content of that many bytes
+    fn write_to(&mut self, rel: &str, mode: &str, big: Option<usize>, to_dir: bool) -> usize {
+        self.token += 1;
+        let rel = rel.to_string();
         let arg = if self.rng.chance(1, 6) { format!("./{rel}") } else { rel.clone() };
-        let content = format!("written {} by tool\nline two\n", self.token);
-        let mut args = json!({"path": arg, "content": content});
-        match self.rng.below(4) {
-            0 => args["atomic"] = json!(false),
-            1 => args["append"] = json!(true),
+        let mut args = json!({"path": arg});
+        let mut step = json!({"op": "tool", "driver": self.tool_driver(), "name": "write"});
+        let content: Vec<u8> = match big {
+            Some(n) => {
+                let seed = 0x5700 + self.token as u64;
+                step["content_gen"] = json!({"seed": seed, "bytes": n});
+                ws_child::gen_content(seed, n)
+            }
+            None => {
+                let c = format!("written {} by tool\nline two\n", self.token);
+                args["content"] = json!(c);
+                c.into_bytes()
+            }
+        };
+        match mode {
+            "nonatomic" => args["atomic"] = json!(false),
+            "append" => args["append"] = json!(true),
             _ => {}
         }
+        step["args"] = args;
         let mut snap = BTreeMap::new();
         snap.insert(rel.clone(), self.m.files.get(&rel).cloned());
-        let i = self.push(
-            json!({"op": "tool", "driver": self.tool_driver(), "name": "write", "args": args}),
-            Plan::Tool { name: "write", named: vec![rel.clone()], well_formed: true },
-            if to_dir { "write_to_dir" } else { "write" },
-        );
+        let tag = if to_dir {
+            "write_to_dir".to_string()
+        } else {
+            format!("write_{mode}{}{}", if big.is_some() { "_bigcontent" } else { "" }, if self.m.files.get(&rel).map(|b| b.len() >= 4096).unwrap_or(false) { "_on_big" } else { "" })
+        };
+        let i = self.push(step, Plan::Tool { name: "write", named: vec![rel.clone()], well_formed: true }, &tag);
         self.snaps.insert(i, snap);
         if !to_dir && self.m.parents_ok(&rel) && !self.m.is_dir(&rel) {
-            let mut bytes = if args.get("append").is_some() { self.m.files.get(&rel).cloned().unwrap_or_default() } else { Vec::new() };
-            bytes.extend_from_slice(content.as_bytes());
+            let mut bytes = if mode == "append" { self.m.files.get(&rel).cloned().unwrap_or_default() } else { Vec::new() };
+            bytes.extend_from_slice(&content);
             self.m.put(&rel, bytes);
         }
         i
     }
+    /// apply_patch with one Update (optionally + Move) of `rel`, hunks cut from the model's lines (the patch stays small
+    /// whatever the file size). None when the model's file does not qualify.
+    fn update_patch(&mut self, rel: &str, move_to: Option<String>) -> Option<usize> {
+        let text = gp::decode_text(self.m.files.get(rel)?)?;
+        if !text.single_style || text.lines.is_empty() {
+            return None;
+        }
+        let (hunks, _, _) = gp::gen_hunks(&mut self.rng, &text.lines, &mut self.serial);
+        let op = Op::Update { path: rel.to_string(), move_to: move_to.clone(), hunks };
+        let next = gp::step(&self.m, &op)?;
+        let touched = op.named_paths();
+        let kind = op.kind();
+        let text = gp::render(&PatchDoc { ops: vec![op] }, false, true);
+        let mut snap = BTreeMap::new();
+        for p in &touched {
+            snap.insert(p.clone(), self.m.files.get(p).cloned());
+        }
+        let on_big = self.m.files.get(rel).map(|b| b.len() >= 4096).unwrap_or(false);
+        let i = self.push(
+            json!({"op": "tool", "driver": self.tool_driver(), "name": "apply_patch", "args": {"patch": text}}),
+            Plan::Tool { name: "apply_patch", named: touched, well_formed: true },
+            &format!("patch[{kind}]{}", if on_big { "_on_big" } else { "" }),
+        );
+        self.snaps.insert(i, snap);
+        self.m = next;
+        Some(i)
+    }
+    /// edit from outside the system: "inplace" (truncate + rewrite the same inode), "append" (same inode, keeps the
+    /// bytes), "replace" (new file renamed over the old one)
+    fn ext_edit(&mut self, rel: &str, how: &str, big: Option<usize>) {
+        self.token += 1;
+        if !self.m.parents_ok(rel) || self.m.is_dir(rel) || (how == "append" && !self.m.is_file(rel)) {
+            return;
+        }
+        let path = format!("{}/{rel}", self.root_s());
+        let op = match how {
+            "append" => "fs_append",
+            "replace" => "fs_replace",
+            _ => "fs_write",
+        };
+        let mut step = json!({"op": op, "path": path});
+        let content: Vec<u8> = match big {
+            Some(n) => {
+                let seed = 0xE000 + self.token as u64;
+                step["gen"] = json!({"seed": seed, "bytes": n});
+                ws_child::gen_content(seed, n)
+            }
+            None => {
+                let c = format!("external edit {}\n", self.token);
+                step["text"] = json!(c);
+                c.into_bytes()
+            }
+        };
+        let on_big = self.m.files.get(rel).map(|b| b.len() >= 4096).unwrap_or(false);
+        let mut bytes = if how == "append" { self.m.files.get(rel).cloned().unwrap_or_default() } else { Vec::new() };
+        bytes.extend_from_slice(&content);
+        self.m.put(rel, bytes);
+        let tag = format!("ext_{}{}{}", if how == "inplace" { "write" } else { how }, if big.is_some() { "_bigcontent" } else { "" }, if on_big { "_on_big" } else { "" });
+        self.push(step, Plan::Harness, &tag);
+    }
     fn patch(&mut self) -> usize {
+        let big = self.big_files();
+        if !big.is_empty() && self.rng.chance(1, 3) {
+            let rel = self.rng.pick(&big).clone();
+            let move_to = if self.rng.chance(1, 3) { Some(self.fresh.path(&mut self.rng, &self.m)) } else { None };
+            if let Some(i) = self.update_patch(&rel, move_to) {
+                return i;
+            }
+        }
         let n = 1 + self.rng.usize(3);
         let mut ops: Vec<Op> = Vec::new();
         let mut touched: Vec<String> = Vec::new();
@@ -283,7 +427,17 @@ impl<'a> Gen<'a> {
         let existing: Vec<String> = self.m.files.keys().cloned().collect();
         let abs = |rel: &str, root: &str| format!("{root}/{rel}");
         let root = self.root_s();
-        match self.rng.below(5) {
+        match self.rng.below(9) {
+            5 | 6 | 7 | 8 => {
+                // in-place / appending / replacing edits from outside, biased towards large files and large contents
+                let rel = match self.pick_existing() {
+                    Some(p) if self.rng.chance(3, 4) => p,
+                    _ => POOL[self.rng.usize(POOL.len())].to_string(),
+                };
+                let how = *self.rng.pick(&["inplace", "append", "append", "replace"]);
+                let big = if self.rng.chance(1, 3) { Some(self.pick_size(false)) } else { None };
+                self.ext_edit(&rel, how, big);
+            }
             0 | 1 if !existing.is_empty() => {
                 let rel = self.rng.pick(&existing).clone();
                 self.m.files.remove(&rel);
@@ -367,13 +521,30 @@ fn gen_history(l: &Layout, cfg: &Cfg, idx: u64, cwd_name: &str) -> History {
         l,
         rng,
         m: initial_model(),
-        h: History { steps: Vec::new(), plans: Vec::new(), driver, shape: Vec::new() },
+        h: History { steps: Vec::new(), plans: Vec::new(), driver, shape: Vec::new(), initial_big: Vec::new() },
         snaps: BTreeMap::new(),
         corrupted: BTreeSet::new(),
         fresh: Fresh::new(),
         serial: 5000,
         token: 0,
     };
+    // large files of the initial workspace, next to the tiny ones (1 MiB is the rarest: it is re-hashed after every step)
+    if idx >= DIRECTED {
+        let n = g.rng.usize(4);
+        for (j, rel) in BIG_PATHS.iter().enumerate().take(n) {
+            let bytes = match g.rng.below(16) {
+                0 | 1 => SIZES[0],
+                2..=4 => SIZES[1],
+                5..=8 => SIZES[2],
+                9..=11 => SIZES[3],
+                12..=14 => SIZES[4],
+                _ => SIZES[5],
+            };
+            let seed = 0xB160 + j as u64 + (idx << 8);
+            g.m.put(rel, ws_child::gen_content(seed, bytes));
+            g.h.initial_big.push((rel.to_string(), seed, bytes));
+        }
+    }
     if idx < DIRECTED {
         // directed: probe P2 and its relatives under each cwd (clean when cwd == root)
         g.h.driver = if idx == 4 { "router" } else { "runner" };
@@ -417,6 +588,57 @@ fn gen_history(l: &Layout, cfg: &Cfg, idx: u64, cwd_name: &str) -> History {
             "patch[add]",
         );
         let _ = cwd_name;
+        // file size x edit mode: for two sizes per directed history, every way of changing a covered file between the
+        // checkpoint (manual and automatic) and the rewind
+        for (k, bytes) in [SIZES[idx as usize % SIZES.len()], SIZES[(idx as usize + 3) % SIZES.len()]].into_iter().enumerate() {
+            let rel = format!("big/d{k}.txt");
+            g.m.add_parent_dirs(&rel);
+            g.ext_edit(&rel, "inplace", Some(bytes)); // creates the file
+            g.create(Some(vec![rel.clone()]));
+            let c = g.h.steps.len() - 1;
+            g.ext_edit(&rel, "append", None);
+            g.rewind(c, false);
+            let w = g.write_to(&rel, "append", None, false);
+            g.rewind(w, false);
+            let w = g.write_to(&rel, "nonatomic", Some(bytes + 1), false);
+            g.rewind(w, false);
+            if let Some(p) = g.update_patch(&rel, None) {
+                g.rewind(p, false);
+            }
+            if let Some(p) = g.update_patch(&rel, Some(format!("big/moved{k}.txt"))) {
+                g.rewind(p, false);
+            }
+            g.create(Some(vec![format!("{root}/{rel}")]));
+            let c = g.h.steps.len() - 1;
+            g.ext_edit(&rel, "replace", None);
+            g.rewind(c, false);
+            g.create(Some(vec![format!("./{rel}")]));
+            let c = g.h.steps.len() - 1;
+            g.ext_edit(&rel, "inplace", None);
+            g.rewind(c, false);
+            let w = g.write_to(&rel, "atomic", Some(SIZES[1]), false);
+            g.rewind(w, false);
+            // a rewind that fails half-way, after the entry of a file that did not exist at the checkpoint (and exists
+            // now): the stored copy of the later entry is gone …
+            let absent = format!("big/absent{k}.txt");
+            g.create(Some(vec![absent.clone(), rel.clone()]));
+            let c = g.h.steps.len() - 1;
+            g.ext_edit(&absent, "inplace", None);
+            g.push(json!({"op": "corrupt_cp", "ref": c, "how": "remove_stored"}), Plan::Harness, "corrupt_remove_stored");
+            g.corrupted.insert(c);
+            g.rewind(c, true);
+            // … or the later entry's path has become a directory since (pure edit history, no fault)
+            let (absent, y) = (format!("big/absent{k}b.txt"), format!("big/y{k}.txt"));
+            g.ext_edit(&y, "inplace", None);
+            g.create(Some(vec![absent.clone(), y.clone()]));
+            let c = g.h.steps.len() - 1;
+            g.ext_edit(&absent, "inplace", None);
+            g.m.files.remove(&y);
+            g.push(json!({"op": "fs_delete", "path": format!("{root}/{y}")}), Plan::Harness, "delete");
+            g.m.dirs.insert(y.clone());
+            g.push(json!({"op": "fs_mkdir", "path": format!("{root}/{y}")}), Plan::Harness, "mkdir_at_path");
+            g.rewind(c, true);
+        }
         return g.h;
     }
     let n = cfg.tier.pick(10, 14) + g.rng.usize(cfg.tier.pick(14, 30));
@@ -480,14 +702,17 @@ pub fn run(cfg: &Cfg) -> i32 {
         "C14",
         "exploration",
         "seeded histories of 10-40 steps (manual checkpoints over existing / missing / nested paths given relative, './'-prefixed \
-         and absolute; write and constructive apply_patch(add/update/move/delete) through ToolRunner::run or the router with their \
-         automatic checkpoints; raw deletes, mkdir at covered paths, sub-tree removal, external writes; rewinds to any earlier manual or \
+         and absolute; write (atomic / atomic:false / append) and constructive apply_patch(add/update/move/delete) through ToolRunner::run \
+         or the router with their automatic checkpoints; raw deletes, mkdir at covered paths, sub-tree removal, external in-place rewrites, \
+         appends and rename-over replacements; tiny files mixed with line-structured files of 4 KiB, 64 KiB-1, 64 KiB, 64 KiB+1, 200 KiB \
+         and 1 MiB in the initial workspace and in written contents; rewinds to any earlier manual or \
          automatic checkpoint; unknown ids; corrupted checkpoint.json / removed stored copies) x driver (Workspace, ToolRunner + mirror \
          hook, router + real hook) x process cwd (root, outer, sibling with same-named files, sub-directory, /), one child process per \
          history; distinct = (cwd, driver, step-shape sequence); non-trivial = at least one successful rewind was judged",
     );
     r.assume("a covered path is identified by lexical resolution of the supplied path against the workspace root");
     r.assume("bytes are compared through sha256 of every regular file under the root (.rip excluded); empty directories are not judged");
+    r.assume("hard links are detected through st_dev/st_ino/st_nlink of every regular file below .rip/checkpoints after every step; reflinks / other copy-on-write sharing are invisible and harmless");
     r.assume("the ToolRunner-level driver uses a line-for-line mirror of ripd's private WorkspaceCheckpointHook; the router driver uses the real one");
     let base = scratch_root().join(format!("c14-{}", cfg.shard.0));
     let _ = std::fs::create_dir_all(&base);
@@ -519,7 +744,20 @@ pub fn run(cfg: &Cfg) -> i32 {
 struct Recorded {
     covered: BTreeMap<String, Option<String>>, // rel path -> state at checkpoint time
     forms: BTreeMap<String, &'static str>,     // rel path -> "relative" | "absolute"
+    sizes: BTreeMap<String, u64>,              // rel path -> bytes at checkpoint time (existing files)
     auto: bool,
+}
+
+fn tree_sizes(v: Option<&Value>) -> BTreeMap<String, u64> {
+    let mut t = BTreeMap::new();
+    if let Some(m) = v.and_then(|x| x.as_object()) {
+        for (p, e) in m {
+            if e.get(0).and_then(|x| x.as_str()) == Some("f") {
+                t.insert(p.clone(), e.get(2).and_then(|x| x.as_u64()).unwrap_or(0));
+            }
+        }
+    }
+    t
 }
 
 fn one_history(cfg: &Cfg, r: &mut Report, base: &Path, idx: u64) {
@@ -538,13 +776,27 @@ fn one_history(cfg: &Cfg, r: &mut Report, base: &Path, idx: u64) {
         }
     };
     let cwd = cwd_path(&l, cwd_name);
+    let t_gen = std::time::Instant::now();
     let h = gen_history(&l, cfg, idx, cwd_name);
+    let gen_elapsed = t_gen.elapsed();
+    for (rel, seed, bytes) in &h.initial_big {
+        let p = l.root.join(rel);
+        if let Some(parent) = p.parent() {
+            let _ = std::fs::create_dir_all(parent);
+        }
+        let _ = std::fs::write(&p, ws_child::gen_content(*seed, *bytes));
+        r.count(&format!("initial_workspace_files_size_{}", size_tag(*bytes as u64)), 1);
+    }
     let spec = json!({
         "top": l.top, "root": l.root, "data": l.data, "cwd": cwd, "session": "c14-session",
         "canaries": [], "sentinels": l.sentinels, "sentinel_dirs": l.sentinel_dirs,
-        "reset_root": false, "want_tree": true, "steps": h.steps,
+        "reset_root": false, "want_tree": true, "inode_check": true, "root_manifest": false, "steps": h.steps,
     });
+    let t_child = std::time::Instant::now();
     let run = ws_child::run_child(&l.k, &spec, false, Duration::from_secs(cfg.tier.pick(60, 180)));
+    if cfg.has_flag("--timing") {
+        eprintln!("history {idx}: gen {:?}, child {:?}, steps {}, driver {}, initial_big {:?}", gen_elapsed, t_child.elapsed(), h.steps.len(), h.driver, h.initial_big.iter().map(|x| x.2).collect::<Vec<_>>());
+    }
     let Some(doc) = run.doc else {
         r.inconclusive(&format!("history {idx} (cwd={cwd_name}): {}", run.error.unwrap_or_default()));
         let _ = std::fs::remove_dir_all(&k);
@@ -556,6 +808,8 @@ fn one_history(cfg: &Cfg, r: &mut Report, base: &Path, idx: u64) {
     }
     let cwd_tag = if cwd_name == "root" { "cwd_eq_root" } else { "cwd_ne_root" };
     let mut prev: Tree = parse_tree(doc.get("initial_tree"));
+    let mut prev_sizes = tree_sizes(doc.get("initial_tree"));
+    let mut seen_shared: BTreeSet<String> = BTreeSet::new();
     let mut recs: BTreeMap<usize, Recorded> = BTreeMap::new();
     let mut judged_rewinds = 0u64;
     let history_json = |upto: usize| -> Value {
@@ -580,6 +834,7 @@ fn one_history(cfg: &Cfg, r: &mut Report, base: &Path, idx: u64) {
             if !why.contains("no checkpoint") && !why.contains("stores no file") {
                 r.inconclusive(&format!("history {idx} step {i}: {why}"));
             }
+            prev_sizes = tree_sizes(res.get("tree"));
             prev = cur;
             continue;
         }
@@ -593,6 +848,35 @@ fn one_history(cfg: &Cfg, r: &mut Report, base: &Path, idx: u64) {
             .map(|a| a.iter().filter_map(|x| x.as_str().map(|s| s.to_string())).collect())
             .unwrap_or_default();
         let cp_files: Option<Vec<String>> = res.get("cp_files").and_then(|x| x.as_array()).map(|a| a.iter().filter_map(|x| x.as_str().map(|s| s.to_string())).collect());
+        // inode identity: nothing in the store may be hard-linked to a file outside the store
+        r.count("store_files_inode_checked", res.get("store_files_checked").and_then(|x| x.as_u64()).unwrap_or(0));
+        if let Some(shared) = res.get("store_shared_inodes").and_then(|x| x.as_array()) {
+            let fresh: Vec<&Value> = shared
+                .iter()
+                .filter(|e| seen_shared.insert(e.get("store_file").and_then(|x| x.as_str()).unwrap_or("").to_string()))
+                .collect();
+            if !fresh.is_empty() {
+                let by = match plan {
+                    Plan::Create { .. } => "manual_checkpoint",
+                    Plan::Tool { .. } => "auto_checkpoint",
+                    Plan::Rewind { .. } | Plan::RewindUnknown => "rewind",
+                    Plan::Harness => "external_step",
+                };
+                let ws_file = fresh[0].get("workspace_file").and_then(|x| x.as_str()).unwrap_or("");
+                let bytes = prev_sizes.get(ws_file).copied().or_else(|| tree_sizes(res.get("tree")).get(ws_file).copied());
+                r.count("store_files_sharing_an_inode_with_the_workspace", fresh.len() as u64);
+                r.violation(
+                    &format!("C14/store_shares_inode_with_workspace/{by}"),
+                    &format!(
+                        "after step {i} ({by}) {} file(s) below .rip/checkpoints are hard links to files outside the store (e.g. {:?} <-> workspace file {:?}, {} bytes): \
+                         the next in-place edit of the workspace file rewrites the checkpoint's copy",
+                        fresh.len(), fresh[0].get("store_file").and_then(|x| x.as_str()).unwrap_or(""), ws_file, bytes.map(|b| b.to_string()).unwrap_or_else(|| "?".into())
+                    ),
+                    witness("stored copy shares st_dev/st_ino with a file outside the store", json!({"shared": fresh, "workspace_file_bytes": bytes})),
+                );
+            }
+        }
+        let cur_sizes = tree_sizes(res.get("tree"));
         match plan {
             Plan::Harness => {}
             Plan::Create { args } => {
@@ -609,13 +893,18 @@ fn one_history(cfg: &Cfg, r: &mut Report, base: &Path, idx: u64) {
                 if ok {
                     let mut covered = BTreeMap::new();
                     let mut forms = BTreeMap::new();
+                    let mut sizes = BTreeMap::new();
                     for a in args {
                         if let Some(rel) = normalize(&l.root, a) {
                             covered.insert(rel.clone(), file_state(&prev, &rel));
+                            if let Some(n) = prev_sizes.get(&rel) {
+                                sizes.insert(rel.clone(), *n);
+                                r.count(&format!("checkpointed_file_size_{}", size_tag(*n)), 1);
+                            }
                             forms.insert(rel, if a.starts_with('/') { "absolute" } else { "relative" });
                         }
                     }
-                    recs.insert(i, Recorded { covered, forms, auto: false });
+                    recs.insert(i, Recorded { covered, forms, sizes, auto: false });
                 }
             }
             Plan::Tool { name, named, well_formed } => {
@@ -665,11 +954,16 @@ fn one_history(cfg: &Cfg, r: &mut Report, base: &Path, idx: u64) {
                     }
                     let mut covered = BTreeMap::new();
                     let mut forms = BTreeMap::new();
+                    let mut sizes = BTreeMap::new();
                     for rel in &covered_list {
                         covered.insert(rel.clone(), file_state(&prev, rel));
+                        if let Some(n) = prev_sizes.get(rel) {
+                            sizes.insert(rel.clone(), *n);
+                            r.count(&format!("checkpointed_file_size_{}", size_tag(*n)), 1);
+                        }
                         forms.insert(rel.clone(), "relative");
                     }
-                    recs.insert(i, Recorded { covered, forms, auto: true });
+                    recs.insert(i, Recorded { covered, forms, sizes, auto: true });
                 } else if !ch.is_empty() {
                     // already reported
                 } else if frame_kinds.iter().any(|k| k == "checkpoint_failed") {
@@ -687,6 +981,7 @@ fn one_history(cfg: &Cfg, r: &mut Report, base: &Path, idx: u64) {
                     // the checkpoint step did not produce a checkpoint: a rewind cannot have been issued
                     r.count("rewind_of_absent_checkpoint", 1);
                     prev = cur;
+                    prev_sizes = cur_sizes;
                     continue;
                 };
                 let kind = if rec.auto { "auto" } else { "manual" };
@@ -696,6 +991,29 @@ fn one_history(cfg: &Cfg, r: &mut Report, base: &Path, idx: u64) {
                     r.count("covered_paths_compared", rec.covered.len() as u64);
                     if *expect_fail {
                         r.count("rewind_of_corrupted_checkpoint_succeeded", 1);
+                    }
+                    for (p, n) in &rec.sizes {
+                        if rec.covered.get(p).map(|w| w != &file_state(&prev, p)).unwrap_or(false) {
+                            r.count(&format!("rewind_restored_changed_file_size_{}", size_tag(*n)), 1);
+                        }
+                    }
+                    // which kinds of edit happened between the checkpoint and this rewind
+                    // (the edit that an automatic checkpoint precedes is the step of the checkpoint itself)
+                    let mut modes: BTreeSet<&str> = BTreeSet::new();
+                    for t in h.shape.iter().take(i).skip(if rec.auto { *target } else { target + 1 }) {
+                        let t = t.as_str();
+                        for (prefix, needle, mode) in [
+                            ("write_append", "", "tool_append"), ("write_nonatomic", "", "tool_nonatomic"), ("write_atomic", "", "tool_atomic_replace"),
+                            ("patch[", "update", "patch_update_in_place"), ("patch[", "move", "patch_update_move"), ("ext_write", "", "external_in_place"),
+                            ("ext_append", "", "external_append"), ("ext_replace", "", "external_replace_by_rename"),
+                        ] {
+                            if t.starts_with(prefix) && t.contains(needle) {
+                                modes.insert(mode);
+                            }
+                        }
+                    }
+                    for m in modes {
+                        r.count(&format!("rewinds_judged_after_{m}"), 1);
                     }
                     let mut reported = false;
                     for (p, want) in &rec.covered {
@@ -710,7 +1028,7 @@ fn one_history(cfg: &Cfg, r: &mut Report, base: &Path, idx: u64) {
                             r.violation(
                                 &format!("C14/rewind_mismatch/{kind}/{form}/{cwd_tag}"),
                                 &format!("after a successful rewind to a {kind} checkpoint {p:?} ({form} path, cwd={cwd_name}): {how}"),
-                                witness(how, json!({"path": p, "sha_at_checkpoint": want, "sha_after_rewind": got, "sha_before_rewind": file_state(&prev, p),
+                                witness(how, json!({"path": p, "sha_at_checkpoint": want, "sha_after_rewind": got, "sha_before_rewind": file_state(&prev, p), "bytes_at_checkpoint": rec.sizes.get(p), "steps_since_checkpoint": h.shape.iter().take(i).skip(*target).collect::<Vec<_>>(),
                                                     "checkpoint_step": target, "stored_meta": results.get(*target).and_then(|x| x.pointer("/cp_meta/files"))})),
                             );
                             reported = true;
@@ -759,6 +1077,7 @@ fn one_history(cfg: &Cfg, r: &mut Report, base: &Path, idx: u64) {
             }
         }
         prev = cur;
+        prev_sizes = cur_sizes;
     }
     if judged_rewinds > 0 {
         r.distinct_str(&format!("{cwd_name}|{}|{}", h.driver, h.shape.join(">")));
